@@ -187,6 +187,9 @@ handle_op('cif_value_get_text', 'cif_value_get_text', lambda L, fx: (fx.v_numb,)
 handle_op('cif_container_get_code', 'cif_container_get_code', lambda L, fx: (fx.f1,), lambda L, h: L.vp_free(h), observe=lambda L, h: L.ustr(h))
 handle_op('cif_loop_get_category', 'cif_loop_get_category', lambda L, fx: (fx.loop,), lambda L, h: L.vp_free(h), observe=lambda L, h: L.ustr(h))
 handle_op('cif_normalize', 'cif_normalize', lambda L, fx: (U('_Nam\u00c9.\u212bx'), -1), lambda L, h: L.vp_free(h), observe=lambda L, h: L.ustr(h))
+# names that grow by two or more units under case folding (the folding buffer has to be enlarged)
+handle_op('cif_normalize:expanding', 'cif_normalize', lambda L, fx: (U('_Stra\u00dfenma\u00df.\ufb03x'), -1), lambda L, h: L.vp_free(h), observe=lambda L, h: L.ustr(h))
+handle_op('cif_create_block:expanding', 'cif_create_block', lambda L, fx: (fx.cif, U('Ma\u00df\ufb03\u00df')), lambda L, h: L.container_free(h), observe=code_of)
 handle_op('cif_cstr_to_ustr', 'cif_cstr_to_ustr', lambda L, fx: (b'plain text', -1), lambda L, h: L.vp_free(h), observe=lambda L, h: L.ustr(h))
 handle_op('cif_get_api_version', 'cif_get_api_version', lambda L, fx: (), lambda L, h: L.vp_free(h), observe=lambda L, h: C.string_at(h))
 handle_op('cif_parse_options_create', 'cif_parse_options_create', lambda L, fx: (), lambda L, h: L.vp_free(h))
@@ -254,6 +257,8 @@ rc_op('cif_loop_add_item:null', 'cif_loop_add_item', lambda L, fx: (fx.loop, U('
 rc_op('cif_loop_add_packet', 'cif_loop_add_packet', lambda L, fx: (fx.loop, fx.pk))
 rc_op('cif_packet_set_item:new', 'cif_packet_set_item', lambda L, fx: (fx.pk, U('_added'), fx.v_list))
 rc_op('cif_packet_set_item:replace', 'cif_packet_set_item', lambda L, fx: (fx.pk, U('_L2'), fx.v_char))
+rc_op('cif_packet_set_item:expanding-name', 'cif_packet_set_item', lambda L, fx: (fx.pk, U('_\ufb03\u00df\u00df'), fx.v_char))
+rc_op('cif_container_set_value:expanding-name', 'cif_container_set_value', lambda L, fx: (fx.b2, U('_Gr\u00f6\u00dfe\u00df\ufb04'), fx.v_char))
 rc_op('cif_packet_set_item:null', 'cif_packet_set_item', lambda L, fx: (fx.pk, U('_added'), None))
 rc_op('cif_value_init:table', 'cif_value_init', lambda L, fx: (fx.v_char, KIND_TABLE))
 rc_op('cif_value_init:list', 'cif_value_init', lambda L, fx: (fx.v_table, KIND_LIST))
